@@ -313,6 +313,42 @@ ElemElement::executeChildElement(
     return !(element->getXSLToken() == StylesheetConstructionContext::ELEMNAME_ATTRIBUTE
              && executionContext.getSkipElementAttributes() == true);
 }
+
+
+
+// When the name is not a legal one, no element is created, startElement()
+// does not call ElemUse::startElement(), and the attribute sets are not
+// used: go straight to the children, because ElemUse would look for
+// attribute set indexes that nobody has put on the stack.
+const ElemTemplateElement*
+ElemElement::getFirstChildElemToExecute(StylesheetExecutionContext&     executionContext) const
+{
+    if (executionContext.getSkipElementAttributes() == true)
+    {
+        return ElemTemplateElement::getFirstChildElemToExecute(executionContext);
+    }
+    else
+    {
+        return ElemUse::getFirstChildElemToExecute(executionContext);
+    }
+}
+
+
+
+const ElemTemplateElement*
+ElemElement::getNextChildElemToExecute(
+            StylesheetExecutionContext&     executionContext,
+            const ElemTemplateElement*      currentElem) const
+{
+    if (executionContext.getSkipElementAttributes() == true)
+    {
+        return ElemTemplateElement::getNextChildElemToExecute(executionContext, currentElem);
+    }
+    else
+    {
+        return ElemUse::getNextChildElemToExecute(executionContext, currentElem);
+    }
+}
 #endif
 
 
